@@ -26,11 +26,13 @@ def gItemOfJson (j : Json) : Except String GItem :=
 def gNodeOfJson (j : Json) : Except String GNode := do
   let t ← j.getObjValAs? String "t"
   match t with
-  | "list" => return .list (← (← arr j "xs").mapM gItemOfJson)
-  | "tuple" => return .tuple (← (← arr j "xs").mapM gItemOfJson)
-  | "dict" => return .dict (← (← arr j "es").mapM (fun e => match e with
-      | .arr #[k, v] => do return (← gItemOfJson k, ← gItemOfJson v)
-      | _ => throw s!"bad graph entry {e.compress}"))
+  | "list" => return ⟨.list, ← (← arr j "xs").mapM gItemOfJson⟩
+  | "tuple" => return ⟨.tuple, ← (← arr j "xs").mapM gItemOfJson⟩
+  | "dict" =>
+    let es ← (← arr j "es").mapM (fun e => match e with
+      | .arr #[k, v] => do return [← gItemOfJson k, ← gItemOfJson v]
+      | _ => throw s!"bad graph entry {e.compress}")
+    return ⟨.dict, es.flatten⟩
   | _ => throw s!"bad graph node {t}"
 
 /-- canonical JSON of a rebuilt graph (the harness renders the implementation's result the same
@@ -39,12 +41,15 @@ partial def leafToJson : V → Json
   | .tuple xs => Json.mkObj [("tuple", Json.arr (xs.map leafToJson).toArray)]
   | v => Json.mkObj [("leaf", vToJson v)]
 
+def pairUpJ : List Json → List Json
+  | k :: v :: rest => Json.arr #[k, v] :: pairUpJ rest
+  | _ => []
+
 partial def gOutToJson : GOut → Json
   | .leaf v => leafToJson v
   | .ref n => Json.mkObj [("ref", n)]
-  | .list n xs => Json.mkObj [("list", n), ("xs", Json.arr (xs.map gOutToJson).toArray)]
-  | .dict n es => Json.mkObj [("dict", n),
-      ("es", Json.arr (es.map (fun e => Json.arr #[gOutToJson e.1, gOutToJson e.2])).toArray)]
+  | .node false n xs => Json.mkObj [("list", n), ("xs", Json.arr (xs.map gOutToJson).toArray)]
+  | .node true n xs => Json.mkObj [("dict", n), ("es", Json.arr (pairUpJ (xs.map gOutToJson)).toArray)]
   | .tuple xs => Json.mkObj [("tuple", Json.arr (xs.map gOutToJson).toArray)]
 
 /-- a leaf in argument position: `arg_val(target, leaf, scope)` under the interpreter model -/
@@ -69,6 +74,9 @@ def runCyclic (j : Json) : Except String Json := do
     | .error e => Json.mkObj [("err", e.cls)])
   if expected.any (fun e => (e.getObjValAs? String "err").toOption.any (fun c => c == "Unsupported" || c == "OutOfFuel" || c == "BadGraph")) then
     return Json.mkObj [("skip", true), ("why", "outside the modelled domain")]
+  -- the heap is in the domain of c08_rebuild_terminates (tuple-only reference paths acyclic)
+  if !(tuplesForward nodes) then
+    return Json.mkObj [("skip", true), ("why", "a tuple inside a tuple with a smaller index: not a constructible heap")]
   let same := (expected.zip impls).all (fun p => p.1.compress == p.2.compress)
   let fresh : FreshObs :=
     { noSpecObject := (j.getObjValAs? Bool "impl_fresh").toOption.getD true,
@@ -103,8 +111,10 @@ def run (j : Json) : Except String Json := do
   let shapeOK := !leaked && (match c.implRes with
     | .ok v => fillShapeOK c.spec v
     | .error _ => true) &&
-    -- argument-position / Fill containers: the rebuilt value is the one computed from the current target
-    (if hasArgContainer (fuelFor c.spec) c.spec then resEq mres c.implRes else true)
+    -- plain objects at a position whose static mode is not AUTO, or in argument position (however deep
+    -- below the wrapper: through Pipes, Specs, Coalesce branches, Switch cases, dict values …): the value
+    -- is the one the static-mode reference computes from the current target
+    (if modeSensitiveF (fuelFor c.spec) .auto false c.spec then resEq mres c.implRes else true)
   -- a lazily evaluated stream (Iter) is evaluated, whenever it is consumed, in the mode and scope of
   -- the site where it was written: the result is the one of the lexical model (c08_mode_lexical
   -- covers the model's probes; mode-sensitive literals inside the stream show in the result)
@@ -119,7 +129,7 @@ def run (j : Json) : Except String Json := do
             else if !fresh.noSpecObject then "a container of the result (or an argument handed to a callable) is the spec's own object, not a rebuilt one"
             else if !fresh.rerunSame then "the same spec evaluated again after the first result was mutated gave a different result: evaluations share mutable state"
             else if !lazyOK then "a lazily evaluated stream (Iter) built under a mode wrapper was not evaluated in the mode of the place where it is written"
-            else if !shapeOK then "a Fill / argument-position container was not rebuilt with the same shape from the values of its T/Spec leaves for the current target" else ""),
+            else if !shapeOK then "a plain object under a Fill / Match / Group wrapper or in argument position was not interpreted in the static mode of its position (a container not rebuilt with the same shape from the values of its T/Spec leaves for the current target)" else ""),
     ("model", Json.mkObj [("res", resToJson mres), ("log", Json.arr mlogJ.toArray)]),
     ("static", Json.arr ((annotF fuel .auto c.spec).map (fun x => Json.arr #[toJson x.1, Json.str (modeName x.2)])).toArray),
     ("branch", Json.str (s!"probes={mprobes.length}" ++ (match mres with | .ok _ => "-ok" | .error e => s!"-err-{e}")))]
